@@ -340,6 +340,10 @@ func execHSearch(c *hsCase) []string {
 			return append(lines, "op panic train: "+err.Error(), "end")
 		}
 	}
+	// hybrid search objects are executed at once, at once and again after the next Add / Remove /
+	// Flush, or only after it (rexec.go); the search line — the hybrid answer, what Execute obtained
+	// from the sub-indexes and the separately issued sub-searches — is made where the Execute happens
+	var rex rexQueue
 	for _, cmd := range c.Cmds {
 		switch cmd.Op {
 		case "add":
@@ -363,20 +367,32 @@ func execHSearch(c *hsCase) []string {
 			} else if c.HasV && v != nil {
 				lines = append(lines, fmt.Sprintf("op doc %d %s => ok", cmd.ID, core.VecHex(v)))
 			}
+			rex.run()
 		case "remove":
 			if err := idx.Remove(cmd.ID); err == nil { // (a shrunk case may remove an id whose add was dropped)
 				lines = append(lines, fmt.Sprintf("op undoc %d => ok", cmd.ID))
 			}
+			rex.run()
 		case "flush":
 			idx.Flush()
+			rex.run()
 		case "search":
-			lines = append(lines, hsSearch(c, idx, vec, txt, meta, cmd))
+			run, bad := hsSearch(c, idx, vec, txt, meta, cmd)
+			if run == nil {
+				lines = append(lines, bad)
+				continue
+			}
+			rex.next(func() { lines = append(lines, run()) })
 		}
 	}
+	rex.run()
 	return append(lines, "end")
 }
 
-func hsSearch(c *hsCase, idx comet.HybridSearchIndex, vec comet.VectorIndex, txt comet.TextIndex, meta comet.MetadataIndex, cmd hsCmd) string {
+// hsSearch builds the hybrid search object of a search command and returns the function that
+// executes it (every call: Execute on that same object, fresh sub-searches, one search line);
+// (nil, line) when the object cannot be built.
+func hsSearch(c *hsCase, idx comet.HybridSearchIndex, vec comet.VectorIndex, txt comet.TextIndex, meta comet.MetadataIndex, cmd hsCmd) (func() string, string) {
 	var filters []comet.Filter
 	for _, f := range cmd.Filters {
 		filters = append(filters, hsBuildFilter(f))
@@ -393,7 +409,6 @@ func hsSearch(c *hsCase, idx comet.HybridSearchIndex, vec comet.VectorIndex, txt
 		}
 		groups = append(groups, &comet.FilterGroup{Filters: fs, Logic: logic})
 	}
-	hasFilt := len(filters) > 0 || len(groups) > 0
 	q := core.FromBits(cmd.QV)
 	agg := comet.ScoreAggregationKind(cmd.Agg)
 	cutoff := -1
@@ -451,12 +466,28 @@ func hsSearch(c *hsCase, idx comet.HybridSearchIndex, vec comet.VectorIndex, txt
 		}
 		f, err := comet.NewFusion(comet.FusionKind(cmd.Fusion), fc)
 		if err != nil {
-			return "op panic fusion: " + err.Error()
+			return nil, "op panic fusion: " + err.Error()
 		}
 		hs = hs.WithFusion(f)
 	} else {
 		vw, tw = 1, 1 // DefaultFusion = weighted sum with weights 1, 1
 	}
+	return func() string { return hsExecute(hs, vec, txt, meta, cmd, filters, groups, q, thr, nprobes, vw, tw, rk) }, ""
+}
+
+// hsExecute executes the hybrid search object hs (built by hsSearch for cmd) and the sub-searches
+// on the indexes as they are now, and renders the search line.
+func hsExecute(hs comet.HybridSearch, vec comet.VectorIndex, txt comet.TextIndex, meta comet.MetadataIndex, cmd hsCmd,
+	filters []comet.Filter, groups []*comet.FilterGroup, q []float32, thr float32, nprobes int, vw, tw, rk float64) string {
+	hasFilt := len(filters) > 0 || len(groups) > 0
+	agg := comet.ScoreAggregationKind(cmd.Agg)
+	cutoff := -1
+	if cmd.SetCut {
+		cutoff = cmd.Cutoff
+	}
+	// what Execute computes internally is captured under the search object: a capture left by an
+	// earlier Execute of the same object was taken out then, this one is taken out now
+	hsCaptures.Delete(any(hs))
 	hres, herr := hs.Execute()
 	var cap *hsCapture
 	if v, ok := hsCaptures.LoadAndDelete(any(hs)); ok {
